@@ -55,20 +55,29 @@ def run(ctx):
             else:
                 r.bad("%s|inc" % name, "%s sink: matched() can return without counting the match" % name, fn=f, construct="match_count")
             h = facts.fn(adt + "::has_match")
-            tail = H.tail_expr(h.hir)
+            # value table: has_match over (kind, match_count)
+            from ..flow import table, ret_set
+            SK = "grep_printer::summary::SummaryKind"
+            flds = {(adt, "match_count"): [I(0), I(2)]}
             if name == "summary":
-                m = H.strip(tail)
-                okh = m.get("k") == "match" and "config.kind" in H.canon(m["scrut"])
-                arms = {H.canon_pat(a["pat"]).split("::")[-1]: H.canon(a["body"]) for a in m.get("arms", [])} if okh else {}
-                if arms.get("PathWithoutMatch") == "(self.match_count Eq 0)" and arms.get("_") == "(self.match_count Gt 0)":
-                    r.ok("summary|has_match", "has_match: PathWithoutMatch ⇒ count == 0, otherwise count > 0", fn=h)
-                else:
-                    r.bad("summary|has_match", "SummarySink::has_match arms are %s" % arms, fn=h, construct="has_match")
+                flds[("grep_printer::summary::Config", "kind")] = [V(v) for v in facts.variants(SK)]
+            wrong = []
+            for row, sx in table(facts, h, fields=flds):
+                cnt = row[("field", (adt, "match_count"))][1]
+                kind = row.get(("field", ("grep_printer::summary::Config", "kind")))
+                want = (cnt == 0) if (kind is not None and kind[1] == "PathWithoutMatch") else (cnt > 0)
+                got = ret_set(sx)
+                if got != {I(1 if want else 0)}:
+                    wrong.append("%s count=%d ⇒ %s" % (kind[1] if kind else "", cnt, sorted(map(str, got))))
+            if not wrong and name == "summary":
+                r.ok("summary|has_match", "has_match: PathWithoutMatch ⇒ count == 0, otherwise count > 0", fn=h)
+            elif not wrong:
+                r.ok("%s|has_match" % name, "has_match ≡ match_count > 0", fn=h)
+            elif name == "summary":
+                r.bad("summary|has_match", "SummarySink::has_match is not `PathWithoutMatch ⇒ count == 0, otherwise count > 0`: %s" % "; ".join(wrong)[:160],
+                      fn=h, construct="has_match")
             else:
-                if H.canon(tail) == "(self.match_count Gt 0)":
-                    r.ok("%s|has_match" % name, "has_match ≡ match_count > 0", fn=h)
-                else:
-                    r.bad("%s|has_match" % name, "%s has_match is `%s`" % (name, H.canon(tail)), fn=h, construct="has_match")
+                r.bad("%s|has_match" % name, "%s has_match is not `match_count > 0`: %s" % (name, "; ".join(wrong)[:120]), fn=h, construct="has_match")
         # summary: multi-line adds the re-discovered count, otherwise 1
         f = sink_fn(facts, SINKS["summary"], "matched")
         eb = ExprBuilder(f)
